@@ -120,6 +120,23 @@ Fixpoint read_fields (fuel : nat) (l : bytes) : option (list (bytes * bytes) * b
     end
   end.
 
+(* the head as raw lines (no interpretation): lines up to the first empty line; a line with a bare CR, a bare
+   LF or a NUL is unreadable *)
+Fixpoint head_lines (fuel : nat) (l : bytes) : option (list bytes * bytes) :=
+  match fuel with
+  | O => None
+  | S f =>
+    match read_line l with
+    | None => None
+    | Some ([], rest) => Some ([], rest)
+    | Some (line, rest) =>
+      match head_lines f rest with
+      | Some (lines, rest') => Some (line :: lines, rest')
+      | None => None
+      end
+    end
+  end.
+
 Definition lower_c (c : N) : N := if (65 <=? c) && (c <=? 90) then c + 32 else c.
 Definition field_values (lname : bytes) (flds : list (bytes * bytes)) : list bytes :=
   map snd (filter (fun f => beq (map lower_c (fst f)) lname) flds).
